@@ -30,6 +30,7 @@ fn main() {
     run_singles(&mut c);
     if c.on("from") {
         run_froms(&mut c);
+        run_probes(&mut c);
     }
     c.wr.flush();
 }
